@@ -199,6 +199,8 @@ def receivePushPromiseFrame (sid promised : Int) (block : Bytes) : CM FE := do
   if ep == 0 then raise pErr else
   let pushedHeaders ← decodeHeaders block
   connInput .RECV_PUSH_PROMISE
+  -- (fix D52: the promised id comes with the reserved bit still on it; refused before the promise is acted on)
+  if promised > HIGHEST_ALLOWED_STREAM_ID then raise pErr else
   let found ← tryCatch (do getStreamById sid; pure true)
     (fun e => e.isInstance .NoSuchStreamError) (fun _ => pure false)
   if !found then receivePushPromiseUnknown sid promised
